@@ -34,7 +34,9 @@ def generate(chk, limit=None, variant=""):
     then cover whole messages only while another whole message is still missing)."""
     out, seen = [], set()
     # m400 genc: two losses, no reordering - e.g. both Certificate datagrams lost while the rest of the flight arrives
-    shapes = ("gena", "genb") if not variant else (("gena", "genc") if chk.quick else ("gena", "genb"))
+    # (thorough: genb = two losses and two time-outs without reordering, genc = one loss, one reordering, two time-outs; the
+    # product of all three budgets does not fit into memory with the history variable)
+    shapes = ("gena", "genb") if not variant else ("gena", "genc") if chk.quick else ("gena", "genb", "genc")
     for shape in shapes:
         cfg = "Handshake13F.%s%s.%s.cfg" % (variant + "." if variant else "", shape, chk.tier)
         gen = vlib.tlc_generate(MODULE, cfg, timeout=2400)
